@@ -728,3 +728,62 @@ func genCollide(r *vh.Rng, seq *int) *hcase {
 	}
 	return c
 }
+
+
+// the id table is FULL: first capacity+k distinct ids, then
+//   A B A   (a new id, one other new id, the first again inside the interval: must be suppressed),
+//   repeats of the most recent ids (resident: suppressed),
+//   repeats of the eldest ids (forgotten by then: written, and re-entering as the newest),
+// all inside one interval, every decision compared with the model and with the specified table.
+func genFullTable(r *vh.Rng, seq *int) *hcase {
+	c, b := newCase(r, "fulltable", seq)
+	c.Level = 0
+	iv := r.PickInt([]int{60, 120})
+	b.cfg(true, 7, iv, "debug")
+	capN := idCacheCap
+	k := 1 + r.Intn(40)
+	salt := r.Intn(1000)
+	type ent struct{ m, id, msg string }
+	mk := func(n int) ent {
+		m := r.PickStr([]string{"errorf", "warnf", "infof", "printf", "error"})
+		if m == "printf" {
+			return ent{m, fmt.Sprintf("F%d-%d", salt, n), "explicit id"}
+		}
+		return ent{m, "", fmt.Sprintf("f%03d%06d", salt, n) + r.PickStr([]string{"", " tail"})}
+	}
+	emit := func(e ent) { b.log(e.m, e.id, e.msg) }
+	ents := make([]ent, 0, capN+k+200)
+	next := 0
+	fresh := func() ent { e := mk(next); next++; ents = append(ents, e); return e }
+	for i := 0; i < capN+k; i++ {
+		emit(fresh())
+		if i%97 == 0 {
+			b.adv(1)
+		}
+	}
+	for round := 0; round < 12+r.Intn(20); round++ {
+		switch r.Intn(4) {
+		case 0, 1: // A B A (and A B C A)
+			a := fresh()
+			emit(a)
+			b.adv(r.Pick64([]int64{0, 1}))
+			emit(fresh())
+			if r.Chance(40) {
+				emit(fresh())
+			}
+			emit(a)
+		case 2: // one of the most recent ids
+			emit(ents[len(ents)-1-r.Intn(20)])
+		default: // one of the eldest ids ever logged
+			emit(ents[r.Intn(k+20)])
+		}
+	}
+	// and once more after the interval: everything resident is due again
+	b.adv(int64(iv)*1000 + 1)
+	for i := 0; i < 10; i++ {
+		e := ents[len(ents)-1-r.Intn(30)]
+		emit(e)
+		emit(e)
+	}
+	return c
+}
